@@ -2,7 +2,7 @@ use crate::Backtrace;
 use crate::DatabaseKeyIndex;
 use crate::function::memo::{Memo, MemoHeader};
 use crate::function::{Configuration, IngredientImpl};
-use crate::zalsa_local::QueryRevisions;
+use crate::zalsa_local::{QueryOriginRef, QueryRevisions};
 use std::fmt;
 
 impl<C> IngredientImpl<C>
@@ -18,12 +18,29 @@ where
         index: DatabaseKeyIndex,
         revisions: &mut QueryRevisions,
         value: &C::Output<'db>,
+        current_revision: crate::Revision,
     ) {
-        if old_memo.header.can_backdate(revisions)
+        let backdated = old_memo.header.can_backdate(revisions)
             && old_memo
                 .value()
-                .is_some_and(|old_value| C::values_equal(old_value, value))
+                .is_some_and(|old_value| C::values_equal(old_value, value));
+
+        // A value that used to be specified by another query and is now computed has changed
+        // its *source*: the computed memo's `changed_at` only reflects the inputs of the
+        // function body, not the fact that the creator no longer specifies the value.
+        if matches!(old_memo.header.origin(), QueryOriginRef::Assigned(_))
+            && !matches!(revisions.origin(), QueryOriginRef::Assigned(_))
         {
+            if backdated {
+                // Same value as the one that was specified: nothing changed for any reader.
+                revisions.changed_at = old_memo.header.revisions.changed_at;
+            } else {
+                revisions.changed_at = current_revision;
+            }
+            return;
+        }
+
+        if backdated {
             old_memo.header.backdate(index, revisions);
         }
     }
